@@ -34,6 +34,13 @@ func init() {
 			if !d.IsConst() {
 				ex.abort("WaitGroup.Add with symbolic delta")
 			}
+			if ex.tr != nil && ex.trOn() {
+				if id, ok := ex.tr.wgID[a[0].(*Value)]; ok {
+					ex.tr.emit(ex, TraceEvent{Kind: "wgadd", Obj: rc(uint64(id)), Args: []*smt.Term{rc(uint64(d.SInt()))}})
+					return nil
+				}
+				ex.abort("WaitGroup that was not shared (vf.ShareWG) is used by traced code")
+			}
 			cnt := ex.wgCounter(a[0].(*Value))
 			*cnt += int(d.SInt())
 			if *cnt < 0 {
@@ -42,6 +49,13 @@ func init() {
 			return nil
 		},
 		"(*sync.WaitGroup).Done": func(ex *Exec, c *frame, fn *ssa.Function, a []Value) Value {
+			if ex.tr != nil && ex.trOn() {
+				if id, ok := ex.tr.wgID[a[0].(*Value)]; ok {
+					ex.tr.emit(ex, TraceEvent{Kind: "wgdone", Obj: rc(uint64(id))})
+					return nil
+				}
+				ex.abort("WaitGroup that was not shared (vf.ShareWG) is used by traced code")
+			}
 			cnt := ex.wgCounter(a[0].(*Value))
 			*cnt--
 			if *cnt < 0 {
@@ -50,6 +64,13 @@ func init() {
 			return nil
 		},
 		"(*sync.WaitGroup).Wait": func(ex *Exec, c *frame, fn *ssa.Function, a []Value) Value {
+			if ex.tr != nil && ex.trOn() {
+				if id, ok := ex.tr.wgID[a[0].(*Value)]; ok {
+					ex.tr.emit(ex, TraceEvent{Kind: "wgwait", Obj: rc(uint64(id))})
+					return nil
+				}
+				ex.abort("WaitGroup that was not shared (vf.ShareWG) is used by traced code")
+			}
 			cnt := ex.wgCounter(a[0].(*Value))
 			ex.block(func() bool { return *cnt == 0 }, "WaitGroup.Wait")
 			return nil
